@@ -1,5 +1,5 @@
 /-
-  Proofs.ForFloat — lemmas for the float numeric-for (Props.C16 float_loop_values_partial):
+  Proofs.ForFloat — lemmas for the float numeric-for (Props.C16 float_loop_values):
   float addition is monotone (x + d ≥ x for d > 0), keeps values well-formed, and produces a
   NaN only from ∞ + (−∞); hence the overflow test of advfor never fires in a float loop and the
   limit test `stop < next` is the negation of the manual's `next <= stop` for non-NaN values.
@@ -8,7 +8,7 @@ import GoluaVerif.Model.For
 import GoluaVerif.Proofs.ForLoop
 namespace GoluaVerif.Proofs.ForFloat
 open GoluaVerif GoluaVerif.Spec GoluaVerif.Spec.For GoluaVerif.Proofs GoluaVerif.Proofs.ForLoop
-open GoluaVerif.Model.For (isLessThan isPositive isZero add advfor prepfor loopFrom)
+open GoluaVerif.Model.For (isLessThan isLessOrEqual isPositive isZero add advfor prepfor loopFrom)
 
 set_option exponentiation.threshold 4096
 
@@ -256,81 +256,123 @@ theorem isZero_iff (d : F64) (hn : d.isNaN = false) : F64.isZero d = decide (d.k
   rw [hn]
   rfl
 
-/-- one advfor step of a float loop: the new start register is `x + d` if that is still within the limit -/
-theorem adv_float (x d : F64) (l : Num) (hx : x.isNaN = false) (hxw : x.WF = true) (hdw : d.WF = true)
-    (hdn : d.isNaN = false) (hdz : d.key ≠ 0) (hc : compatible x d)
-    (hl : l.isNaN = false) (hlw : numWF l = true) :
-    advfor (.flt x) l (.flt d) =
-      (if fcont d.isPos (F64.fadd x d) l then some (.flt (F64.fadd x d)) else none) ∧
-    (F64.fadd x d).isNaN = false ∧ compatible (F64.fadd x d) d := by
-  have hw := fadd_wf x d
-  by_cases hp : 0 < d.key
-  · obtain ⟨m1, m2, m3⟩ := fadd_mono_pos x d hx hxw hdw hp hdn hc
-    refine ⟨?_, m1, m3⟩
-    have hpos : F64.isPos d = true := by rw [isPos_iff d hdn]; exact decide_eq_true hp
-    simp only [advfor, add, isPositive, hpos, if_true, fcont]
-    rw [isLessThan_exact l (.flt (F64.fadd x d)) hlw hw, isLessThan_exact (.flt (F64.fadd x d)) (.flt x) hw hxw,
-      lt_false_of_key_le (.flt (F64.fadd x d)) (.flt x) m2, Bool.or_false,
-      le_eq_not_lt (.flt (F64.fadd x d)) l m1 hl]
-    cases Num.lt l (.flt (F64.fadd x d)) <;> rfl
-  · have hn : d.key < 0 := by omega
-    obtain ⟨m1, m2, m3⟩ := fadd_mono_neg x d hx hxw hdw hn hdn hc
-    refine ⟨?_, m1, m3⟩
-    have hpos : F64.isPos d = false := by rw [isPos_iff d hdn]; exact decide_eq_false hp
-    simp only [advfor, add, isPositive, hpos, Bool.false_eq_true, if_false, fcont]
-    rw [isLessThan_exact (.flt (F64.fadd x d)) l hw hlw, isLessThan_exact (.flt x) (.flt (F64.fadd x d)) hxw hw,
-      lt_false_of_key_le (.flt x) (.flt (F64.fadd x d)) m2, Bool.or_false,
-      le_eq_not_lt l (.flt (F64.fadd x d)) hl m1]
-    cases Num.lt (.flt (F64.fadd x d)) l <;> rfl
+/-- a sum that is not a NaN has operands that are not NaN and not infinities of opposite signs -/
+theorem fadd_notNaN (x d : F64) (h : (F64.fadd x d).isNaN = false) :
+    x.isNaN = false ∧ d.isNaN = false ∧ compatible x d := by
+  cases x with
+  | nan => simp [F64.fadd, F64.isNaN] at h
+  | inf a =>
+    cases d with
+    | nan => simp [F64.fadd, F64.isNaN] at h
+    | inf b =>
+      refine ⟨rfl, rfl, ?_⟩
+      show a = b
+      by_cases hab : a = b
+      · exact hab
+      · simp [F64.fadd, hab, F64.isNaN] at h
+    | fin nb mb => exact ⟨rfl, rfl, trivial⟩
+  | fin na ma =>
+    cases d with
+    | nan => simp [F64.fadd, F64.isNaN] at h
+    | inf b => exact ⟨rfl, rfl, trivial⟩
+    | fin nb mb => exact ⟨rfl, rfl, trivial⟩
 
-theorem float_loop (d : F64) (l : Num) (hdw : d.WF = true) (hdn : d.isNaN = false) (hdz : d.key ≠ 0)
-    (hl : l.isNaN = false) (hlw : numWF l = true) :
-    ∀ (cap : Nat) (x : F64), x.isNaN = false → x.WF = true → compatible x d →
+theorem le_false_of_nan_left (a b : Num) (h : a.isNaN = true) : Num.le a b = false := by
+  have : Num.le a b = (!a.isNaN && !b.isNaN && decide (a.key ≤ b.key)) := rfl
+  rw [this, h]; rfl
+
+theorem le_false_of_nan_right (a b : Num) (h : b.isNaN = true) : Num.le a b = false := by
+  have : Num.le a b = (!a.isNaN && !b.isNaN && decide (a.key ≤ b.key)) := rfl
+  rw [this, h]; simp
+
+theorem fcont_true_notNaN (p : Bool) (x : F64) (l : Num) (h : fcont p x l = true) : x.isNaN = false := by
+  cases hx : x.isNaN with
+  | false => rfl
+  | true =>
+    have h1 := le_false_of_nan_left (.flt x) l hx
+    have h2 := le_false_of_nan_right l (.flt x) hx
+    cases p <;> simp [fcont, h1, h2] at h
+
+/-- one advfor step of a float loop: the new start register is `x + d` if that is still within the limit
+    (`not (next <= limit)` ends the loop, also when `next` or the limit is NaN; the overflow test never fires) -/
+theorem adv_float (x d : F64) (l : Num) (hx : x.isNaN = false) (hxw : x.WF = true) (hdw : d.WF = true)
+    (hz : F64.isZero d = false) (hlw : numWF l = true) :
+    advfor (.flt x) l (.flt d) =
+      (if fcont d.isPos (F64.fadd x d) l then some (.flt (F64.fadd x d)) else none) := by
+  have hw := fadd_wf x d
+  cases hnx : (F64.fadd x d).isNaN with
+  | true =>
+    have h1 := le_false_of_nan_left (.flt (F64.fadd x d)) l hnx
+    have h2 := le_false_of_nan_right l (.flt (F64.fadd x d)) hnx
+    have e1 := isLessOrEqual_exact (.flt (F64.fadd x d)) l hw hlw
+    have e2 := isLessOrEqual_exact l (.flt (F64.fadd x d)) hlw hw
+    rw [h1] at e1
+    rw [h2] at e2
+    simp only [advfor, add, isPositive, fcont, e1, e2, h1, h2]
+    cases F64.isPos d <;> simp
+  | false =>
+    obtain ⟨_, hdn, hc⟩ := fadd_notNaN x d hnx
+    have hdz : d.key ≠ 0 := by
+      rw [isZero_iff d hdn] at hz
+      simpa using hz
+    by_cases hp : 0 < d.key
+    · obtain ⟨m1, m2, m3⟩ := fadd_mono_pos x d hx hxw hdw hp hdn hc
+      have hpos : F64.isPos d = true := by rw [isPos_iff d hdn]; exact decide_eq_true hp
+      simp only [advfor, add, isPositive, hpos, if_true, fcont]
+      rw [isLessOrEqual_exact (.flt (F64.fadd x d)) l hw hlw, isLessThan_exact (.flt (F64.fadd x d)) (.flt x) hw hxw,
+        lt_false_of_key_le (.flt (F64.fadd x d)) (.flt x) m2, Bool.or_false]
+      cases Num.le (.flt (F64.fadd x d)) l <;> rfl
+    · have hn : d.key < 0 := by omega
+      obtain ⟨m1, m2, m3⟩ := fadd_mono_neg x d hx hxw hdw hn hdn hc
+      have hpos : F64.isPos d = false := by rw [isPos_iff d hdn]; exact decide_eq_false hp
+      simp only [advfor, add, isPositive, hpos, Bool.false_eq_true, if_false, fcont]
+      rw [isLessOrEqual_exact l (.flt (F64.fadd x d)) hlw hw, isLessThan_exact (.flt x) (.flt (F64.fadd x d)) hxw hw,
+        lt_false_of_key_le (.flt x) (.flt (F64.fadd x d)) m2, Bool.or_false]
+      cases Num.le l (.flt (F64.fadd x d)) <;> rfl
+
+theorem float_loop (d : F64) (l : Num) (hdw : d.WF = true) (hz : F64.isZero d = false) (hlw : numWF l = true) :
+    ∀ (cap : Nat) (x : F64), x.WF = true →
       loopFrom cap (if fcont d.isPos x l then some (.flt x) else none) l (.flt d) =
         floatValues cap x l d := by
   intro cap
   induction cap with
-  | zero => intro x _ _ _; cases fcont d.isPos x l <;> rfl
+  | zero => intro x _; cases fcont d.isPos x l <;> rfl
   | succ cap ih =>
-    intro x hx hxw hc
+    intro x hxw
     cases hf : fcont d.isPos x l with
     | false => simp only [Bool.false_eq_true, if_false, loopFrom, floatValues, hf]
     | true =>
-      obtain ⟨a1, a2, a3⟩ := adv_float x d l hx hxw hdw hdn hdz hc hl hlw
+      have hx := fcont_true_notNaN _ x l hf
+      have a1 := adv_float x d l hx hxw hdw hz hlw
       simp only [if_true, loopFrom, floatValues, hf, a1]
-      rw [ih (F64.fadd x d) a2 (fadd_wf x d) a3]
+      rw [ih (F64.fadd x d) (fadd_wf x d)]
 
-theorem prep_float (x d : F64) (l : Num) (hx : x.isNaN = false) (hxw : x.WF = true)
-    (hl : l.isNaN = false) (hlw : numWF l = true) :
-    (if (if isPositive (.flt d) then isLessThan l (.flt x) else isLessThan (.flt x) l) = true then none
+theorem prep_float (x d : F64) (l : Num) (hxw : x.WF = true) (hlw : numWF l = true) :
+    (if (if isPositive (.flt d) then !isLessOrEqual (.flt x) l else !isLessOrEqual l (.flt x)) = true then none
      else some (Num.flt x)) =
     (if fcont d.isPos x l then some (Num.flt x) else none) := by
   simp only [isPositive, fcont]
+  rw [isLessOrEqual_exact (.flt x) l hxw hlw, isLessOrEqual_exact l (.flt x) hlw hxw]
   by_cases hp : F64.isPos d = true
   · simp only [hp, if_true]
-    rw [isLessThan_exact l (.flt x) hlw hxw, le_eq_not_lt (.flt x) l hx hl]
-    cases Num.lt l (.flt x) <;> rfl
+    cases Num.le (.flt x) l <;> rfl
   · simp only [hp, if_false]
-    rw [isLessThan_exact (.flt x) l hxw hlw, le_eq_not_lt l (.flt x) hl hx]
-    cases Num.lt (.flt x) l <;> rfl
+    cases Num.le l (.flt x) <;> rfl
 
 /-- the whole float loop of the model (start and step already floats) is the manual's -/
-theorem run_float (cap : Nat) (x d : F64) (l : Num) (hx : x.isNaN = false) (hxw : x.WF = true)
-    (hdw : d.WF = true) (hdn : d.isNaN = false) (hc : compatible x d)
-    (hl : l.isNaN = false) (hlw : numWF l = true) :
+theorem run_float (cap : Nat) (x d : F64) (l : Num) (hxw : x.WF = true) (hdw : d.WF = true)
+    (hlw : numWF l = true) :
     (if isZero (.flt d) then Outcome.error
      else .values (loopFrom cap
-       (if (if isPositive (.flt d) then isLessThan l (.flt x) else isLessThan (.flt x) l) = true then none
+       (if (if isPositive (.flt d) then !isLessOrEqual (.flt x) l else !isLessOrEqual l (.flt x)) = true then none
         else some (Num.flt x)) l (.flt d))) =
     (if d.isZero then Outcome.error else .values (floatValues cap x l d)) := by
   simp only [isZero]
   by_cases hz : F64.isZero d = true
   · simp only [hz, if_true]
   · simp only [hz, if_false]
-    have hdz : d.key ≠ 0 := by
-      rw [isZero_iff d hdn] at hz
-      simpa using hz
-    rw [prep_float x d l hx hxw hl hlw, float_loop d l hdw hdn hdz hl hlw cap x hx hxw hc]
+    have hz' : F64.isZero d = false := by simpa using hz
+    rw [prep_float x d l hxw hlw, float_loop d l hdw hz' hlw cap x hxw]
 
 /-- Model.For.run once start and step have been unified to floats -/
 theorem model_run_unified (cap : Nat) (a l d : Num) (x fd : F64)
@@ -338,7 +380,7 @@ theorem model_run_unified (cap : Nat) (a l d : Num) (x fd : F64)
     Model.For.run cap (.num a) (.num l) (.num d) =
       (if isZero (.flt fd) then Outcome.error
        else .values (loopFrom cap
-         (if (if isPositive (.flt fd) then isLessThan l (.flt x) else isLessThan (.flt x) l) = true then none
+         (if (if isPositive (.flt fd) then !isLessOrEqual (.flt x) l else !isLessOrEqual l (.flt x)) = true then none
           else some (Num.flt x)) l (.flt fd))) := by
   simp only [Model.For.run, prepfor, Val.toNum?, hu]
   by_cases hz : isZero (.flt fd) = true
